@@ -233,66 +233,40 @@ theorem packRespTCP_frame (m : Msg) (c : Bool) (hm : msgWF m = true) (out : Byte
     be16_enc16 _ (by omega), hle, hb⟩
   rw [← h2, hmod]; rfl
 
-theorem foldl_last_opt (rs : List Resource) : ∀ init : Nat,
-    rs.foldl (fun acc r => if r.rtype = typeOPT then r.rclass else acc) init
-      = match (rs.filter WireIO.isOpt).getLast? with
-        | some o => o.rclass
-        | none => init := by
-  induction rs with
-  | nil => intro init; simp
-  | cons r rs ih =>
-    intro init
-    simp only [List.foldl_cons, ih]
-    by_cases hr : r.rtype = typeOPT
-    · have hp : WireIO.isOpt r = true := by simp [WireIO.isOpt, hr]
-      rw [List.filter_cons_of_pos hp, if_pos hr]
-      cases hf : rs.filter WireIO.isOpt with
-      | nil => simp
-      | cons a t =>
-        rw [List.getLast?_cons_cons]
-        cases hl : (a :: t).getLast? with
-        | none => simp at hl
-        | some o => rfl
-    · have hp : ¬ WireIO.isOpt r = true := by simp [WireIO.isOpt, hr]
-      rw [List.filter_cons_of_neg hp, if_neg hr]
-
-/-- ★ the UDP server's client limit is `max 512 (class of the query's last OPT record)`. -/
-theorem clientUdpSize_spec (ar : List Resource) :
-    clientUdpSize ar = max 512 (match (ar.filter WireIO.isOpt).getLast? with | some o => o.rclass | none => 0) := by
+/-- ★ the UDP server's client limit is `min 65507 (max 512 (class of the query's OPT record))`. -/
+theorem clientUdpSize_spec (q : Msg) :
+    clientUdpSize q = min 65507 (max 512 (match queryOpt q with | some o => o.rclass | none => 0)) := by
   unfold clientUdpSize
   have hf : udpFloor = 512 := by decide
-  rw [hf, foldl_last_opt]
-  generalize (match (ar.filter WireIO.isOpt).getLast? with | some o => o.rclass | none => 0) = s
-  simp only
-  split <;> omega
+  have hm : udpMax = 65507 := by decide
+  rw [hf, hm]
+  cases queryOpt q with
+  | none => simp
+  | some o =>
+    simp only
+    by_cases h1 : o.rclass < 512 <;> by_cases h2 : o.rclass > 65507 <;> simp [h1, h2] <;> omega
 
-/-- ★ end to end for UDP: the datagram never exceeds `max 512 (advertised size)` (advertised sizes
-    are 16-bit), under the budget hypothesis on the response's OPT record. -/
-theorem udp_response_le (q m : Msg) (hm : msgWF m = true) (hq : msgWF q = true) (out : Bytes)
-    (hopt : ∀ o, (popped m (min (clientUdpSize q.additionals) 65535)).1 = some o → resourcePackLen o + 12 ≤ 512)
-    (h : packResp m true (clientUdpSize q.additionals) = .ok out) :
-    out.length ≤ clientUdpSize q.additionals := by
-  have hge : 512 ≤ clientUdpSize q.additionals := by rw [clientUdpSize_spec]; omega
-  have hle : clientUdpSize q.additionals ≤ 65535 := by
-    rw [clientUdpSize_spec]
-    obtain ⟨_, _, _, _, hx, _⟩ := msgWF_parts hq
-    cases hl : (q.additionals.filter WireIO.isOpt).getLast? with
-    | none => simp
-    | some o =>
-      have hmem : o ∈ q.additionals.filter WireIO.isOpt := List.mem_of_getLast? hl
-      have := hx o (List.mem_filter.1 hmem).1
-      simp only [resourceWF, u16, Bool.and_eq_true, decide_eq_true_eq] at this
-      simp only
-      omega
-  have := packResp_le m true _ hm (by omega) out (by intro o ho; have := hopt o ho; omega) h
-  omega
+/-- ★ end to end for UDP: the datagram never exceeds `max 512 (advertised size)` nor the largest UDP
+    payload 65507, under the budget hypothesis on the response's OPT record. -/
+theorem udp_response_le (q m : Msg) (hm : msgWF m = true) (out : Bytes)
+    (hopt : ∀ o, (popped m (clientUdpSize q)).1 = some o → resourcePackLen o + 12 ≤ 512)
+    (h : packResp m true (clientUdpSize q) = .ok out) :
+    out.length ≤ clientUdpSize q ∧ clientUdpSize q ≤ 65507 ∧
+    clientUdpSize q ≤ max 512 (match queryOpt q with | some o => o.rclass | none => 0) := by
+  have hs := clientUdpSize_spec q
+  have hge : 512 ≤ clientUdpSize q := by rw [hs]; omega
+  have hle : clientUdpSize q ≤ 65507 := by rw [hs]; omega
+  have hmin : min (clientUdpSize q) 65535 = clientUdpSize q := by omega
+  have := packResp_le m true _ hm (by omega) out
+    (by rw [hmin]; intro o ho; have := hopt o ho; omega) h
+  refine ⟨by omega, hle, by rw [hs]; omega⟩
 
 /-! ### non-vacuity and the corner made concrete -/
 
 /-- ten 100-octet records at limit 512 (the shape of defect D3) -/
 def big (i : Nat) : Resource := ⟨[1, 116], 16, 1, 60, .raw (List.replicate 100 (UInt8.ofNat i))⟩
 def exResp : Msg :=
-  { hdr := ⟨7, true, 0, false, false, true, true, false, false, 0⟩
+  { hdr := ⟨7, true, 0, false, false, true, true, false, false, 0, false⟩
     questions := [⟨[1, 116], 16, 1⟩]
     answers := [big 1, big 2, big 3, big 4, big 5, big 6]
     authorities := []
@@ -319,7 +293,7 @@ example : ∃ out, packMsg exResp true 512 (msgLen exResp) = .ok out ∧ out.len
 /-- the corner: an OPT record of 531 octets at limit 512 — the limit is silently ignored and the
     datagram has more than 512 octets -/
 def exCorner : Msg :=
-  { hdr := ⟨7, true, 0, false, false, true, true, false, false, 0⟩
+  { hdr := ⟨7, true, 0, false, false, true, true, false, false, 0, false⟩
     questions := [⟨[1, 116], 16, 1⟩]
     answers := [⟨[1, 116], 1, 1, 60, .a [1, 2, 3, 4]⟩]
     authorities := []
@@ -329,6 +303,7 @@ set_option maxRecDepth 100000 in
 example : (match packMsg exCorner false 512 (msgLen exCorner) with
     | .ok out => decide (512 < out.length) | _ => false) = true := by decide
 
+set_option maxRecDepth 100000 in
 /-- tie: the constants and statements of `Msg.Pack`, `packResp`, `packRespTCP` and the UDP handler
     the model is written against. -/
 theorem pins :
@@ -341,7 +316,10 @@ theorem pins :
     Facts.resp_cap = 65535 ∧ Facts.resp_capAssign = 65535 ∧ Facts.resp_tcpSize = "65535" ∧
     Facts.resp_tcpPrefix = "binary.BigEndian.PutUint16(b, uint16(n))" ∧
     Facts.udp_floor = 512 ∧ Facts.udp_floorAssign = 512 ∧
-    Facts.udp_fromOpt = "clientUdpSize = int(hdr.Class)" ∧ Facts.udp_breakCount = 0 ∧
+    Facts.udp_fromOpt = "clientUdpSize = int(hdr.Class)" ∧ Facts.udp_fromOptInit = "hdr := queryOpt(m)" ∧
+    Facts.udp_max = 65507 ∧ Facts.udp_maxCond = "clientUdpSize > maxUdpPayloadSize" ∧
+    Facts.udp_maxAssign = "clientUdpSize = maxUdpPayloadSize" ∧
+    Facts.udp_queryOpt = "{ for _, rs := range [...][]dnsmsg.Resource{m.Additionals, m.Authorities, m.Answers} { for _, rr := range rs { if hdr := rr.Hdr(); hdr.Type == dnsmsg.TypeOPT { return hdr } } } return nil }" ∧
     Facts.udp_packCall = "b := mustHaveRespB(m, rc.Response.Msg, dnsmsg.RCodeRefused, false, clientUdpSize)" := by
   decide
 
